@@ -242,8 +242,11 @@ func (fr *Frame) loopHead(l *Loop, st *State) {
 					}
 				}
 			case *ssa.Call:
+				if b, isBuiltin := x.Call.Value.(*ssa.Builtin); isBuiltin && b.Name() != "close" {
+					continue // append, len, delete, ...: no ghost effects (close(chan) counts in chclosed)
+				}
 				hasCall = true
-				if f := x.Call.StaticCallee(); f != nil && f.Pkg != nil && f.Pkg.Pkg.Path() == "sync" {
+				if f := x.Call.StaticCallee(); f != nil && (strings.HasPrefix(f.String(), "(*sync.Mutex).") || strings.HasPrefix(f.String(), "(*sync.RWMutex).")) {
 					hasSync = true
 				}
 			case *ssa.Go, *ssa.Defer:
@@ -251,10 +254,13 @@ func (fr *Frame) loopHead(l *Loop, st *State) {
 			}
 		}
 	}
+	l.pinHeld, l.pinRHeld = nil, nil
 	if hasCall && !hasSync {
 		// the lock sets are untouched by a loop without lock operations: pin their current values
+		// (checked at every back edge: one iteration leaves the lock sets as it found them)
 		st.ghosts["held"] = fc.heldSet(st)
 		st.ghosts["rheld"] = fc.rheldSet(st)
+		l.pinHeld, l.pinRHeld = st.ghosts["held"], st.ghosts["rheld"]
 	}
 	if hasCall {
 		// ghosts that are not materialised yet get fresh values too (new epoch)
@@ -342,6 +348,14 @@ func (fr *Frame) loopBack(l *Loop, from *ssa.BasicBlock, cond *Term, st *State) 
 	defer func() { fr.phiOv = saved }()
 	for _, c := range fr.loopInvariants(l) {
 		fc.oblige(bst, "inv-preserve", fr.path+lname, fr.evalLoopInv(l, c, bst), pos, "loop invariant preserved: "+c.Text)
+	}
+	if l.pinHeld != nil {
+		if h, ok := bst.ghosts["held"]; ok && h.S != l.pinHeld.S {
+			fc.oblige(bst, "lock", fr.path+lname, Eq(h, l.pinHeld), pos, "one loop iteration leaves the set of held locks as it found it")
+		}
+		if h, ok := bst.ghosts["rheld"]; ok && h.S != l.pinRHeld.S {
+			fc.oblige(bst, "lock", fr.path+lname, Eq(h, l.pinRHeld), pos, "one loop iteration leaves the set of read-held locks as it found it")
+		}
 	}
 	for _, a := range fr.autoInvariants(l, func(p *ssa.Phi) Val { return ov[p] }, func(p *ssa.Phi) (Val, bool) { v, ok := l.entryPhi[p]; return v, ok }) {
 		fc.oblige(bst, "inv-auto", fr.path+lname, a, pos, "automatic bound invariant preserved")
